@@ -42,7 +42,7 @@ def main():
             meta = json.load(open(os.path.join(VERIF, 'seeded', seed, 'meta.json')))
             hit = {p: r for p, (rc, r) in res.items() if rc == 1} if 'apply' not in res else {}
             err = [p for p, v in res.items() if p != 'apply' and v[0] == 2]
-            print('%-7s target=%s  caught by: %s%s' % (seed, meta['property'], ', '.join('%s(%s)' % (p, '/'.join(r)) for p, r in sorted(hit.items())) or '-- MISSED --',
+            print('%-7s target=%s  %scaught by: %s%s' % (seed, meta['property'], ('PATCH DOES NOT APPLY  ' if 'apply' in res else ''), ', '.join('%s(%s)' % (p, '/'.join(r)) for p, r in sorted(hit.items())) or '-- MISSED --',
                                                      ('  analysis-error: %s' % err) if err else ''))
     json.dump(out, open(os.path.join(VERIF, 'seeded', 'matrix.json'), 'w'), indent=1, sort_keys=True)
 
